@@ -14,6 +14,7 @@
 //      files=<path>:<size>:<offset>:<r1>-<r2>:<p|n>,...  | OPEN:ok frozen=..,.. | FS:ok <d|f>:<relpath hex>,...
 #include "config.h"
 #include "common/util.h"
+#include "common/session.h"
 
 #include <algorithm>
 #include <cerrno>
@@ -38,6 +39,7 @@
 using namespace ltv;
 using torrent::Object;
 
+static ltv::Session* g_session;   // the shared session harness: library up, steppable main thread
 static std::string g_base;      // /verif/build/scratch/c08-<pid>   (everything this process may touch)
 static std::string g_scratch;   // <base>/j/j/j/j/j/s : the download root handed to the library
 static const uint32_t open_chunk_limit = 4096;   // harness rule (DownloadMain::open allocates per chunk)
@@ -154,19 +156,32 @@ static std::string run_object(Object* obj) {
       out += " | OPEN:skip";
     } else {
       make_jail();
+      bool started = false;
       std::string root = g_scratch;
       if (fl->is_multi_file()) root += "/" + info->name().str();
       std::string st;
       try {
+        // the client's life cycle: open, full hash check, start (DownloadMain::start re-opens the
+        // file list WITHOUT open_no_create: directories and all files, including zero-length
+        // ones, are created; padding files are skipped), stop, close
         fl->set_root_dir(root);
         d.open(0);                 // Download::open: FileList::open(open_no_create)
-        fl->open(false, 0);        // create directories and files (File::flag_create_queued is set now)
-        st = "ok";
+        d.hash_check(false);
+        torrent::Download dd = d;
+        if (!g_session->settle([dd]() { return dd.is_hash_checked(); }, 20000))
+          st = "err:hashcheck " + d.hash_error_message();
+        else {
+          d.start(torrent::Download::start_skip_tracker);
+          g_session->step();
+          started = true;
+          st = "ok";
+        }
       } catch (torrent::internal_error& e) { st = std::string("err:internal ") + e.what();
       } catch (torrent::storage_error& e) { st = std::string("err:storage");
       } catch (torrent::input_error& e) { st = std::string("err:input");
       } catch (std::exception& e) { st = std::string("err:other ") + e.what(); }
-      out += " | OPEN:" + st;
+      // frozen paths are taken while the download is active; then stop + close, and only then is
+      // the tree walked (nothing is ever deleted, so this sees everything any phase created)
       std::vector<std::string> fr;
       std::string pre = g_scratch + "/";
       for (auto& f : *fl) {
@@ -175,6 +190,13 @@ static std::string run_object(Object* obj) {
         if (p.compare(0, pre.size(), pre) == 0) fr.push_back(hex(p.substr(pre.size())));
         else fr.push_back("ABS" + hex(p));
       }
+      try {
+        if (started) { d.stop(torrent::Download::stop_skip_tracker); g_session->step(); }
+        d.close(0);
+        g_session->step();
+      } catch (torrent::internal_error& e) { st += std::string(" close-err:internal ") + e.what();
+      } catch (std::exception& e) { st += std::string(" close-err:other ") + e.what(); }
+      out += " | OPEN:" + st;
       out += " frozen=" + join(fr);
       // walk the whole private tree <base>: the jail chain j/j/j/j/j/s and what is under s are
       // expected; anything else (a ".." walking up a few levels lands inside <base>) is an escape
@@ -200,6 +222,7 @@ static std::string run_object(Object* obj) {
   if (added) {
     try {
       torrent::download_remove(d);
+      g_session->step();
     } catch (std::exception& e) { out += std::string(" REMOVE-ERR ") + e.what(); }
   }
   rm_rf(g_base);
@@ -208,14 +231,11 @@ static std::string run_object(Object* obj) {
 
 int main() {
   std_setup();
-  ::mkdir("/verif/build", 0777);
-  ::mkdir("/verif/build/scratch", 0777);
-  g_base = "/verif/build/scratch/c08-" + std::to_string(getpid());
+  ltv::Session session;          // /verif/build/scratch/<pid>/ is this process's own directory
+  g_session = &session;
+  g_base = session.scratch() + "/c08";
   g_scratch = g_base + "/j/j/j/j/j/s";
   rm_rf(g_base);
-
-  torrent::initialize_main_thread();
-  torrent::initialize();
 
   std::string line;
   while (std::getline(std::cin, line)) {
@@ -250,7 +270,5 @@ int main() {
   }
   rm_rf(g_base);
   std::cout.flush();
-  // no torrent::cleanup(): worker threads are simply abandoned at exit (quick_exit avoids
-  // destructor races with the still-running library threads)
-  std::_Exit(0);
+  return 0;                      // ~Session: orderly library cleanup, scratch removed
 }
